@@ -925,6 +925,7 @@ class Emitter:
             if f.defined:
                 fe = FuncEmitter(self, f)
                 txt = fe.emit()
+                txt = self.entry_ladder(f, txt)
                 body.append(txt)
         for name in sorted(self.mod.funcs):
             f = self.mod.funcs[name]
@@ -945,7 +946,64 @@ class Emitter:
         disp = self.emit_dispatchers() + '\n' + alias + self.emit_exc_dtor_dispatcher() + '\n' + self.emit_vcall_void()
         init = self.emit_init()
         hdr += ['VP_THREAD_LOCAL uint8_t %s;' % g for g in self.guards]
+        if getattr(self, 'memlad_used', False):
+            # loads/stores of the functions named by opts['ladder_mem_funcs'] go through a ladder over the registered objects'
+            # words at opts['ladder_mem_offsets']: a symbolic address becomes a small mux instead of one over all of memory;
+            # an address outside the ladder is reported (VP-BOUND), never silently mishandled
+            cands = sorted(set(b + o for b in self.ladder_targets() if b not in self.static_vptrs() or True for o in (self.opts.get('ladder_mem_offsets') or [0])))
+            ld = ['static uint64_t vp_ld_lad(uint64_t a, int sz) {'] + ['  if (a == %dUL) return vp_ld(%dUL, sz);' % (c, c) for c in cands] + \
+                 ['  VP_FAIL("VP-BOUND: load through a pointer outside the registered ladder"); VP_ASSUME(0); return 0;', '}']
+            st = ['static void vp_st_lad(uint64_t a, int sz, uint64_t v) {'] + ['  if (a == %dUL) { vp_st(%dUL, sz, v); return; }' % (c, c) for c in cands] + \
+                 ['  VP_FAIL("VP-BOUND: store through a pointer outside the registered ladder"); VP_ASSUME(0);', '}']
+            hdr += ld + st
         return '\n'.join(hdr) + '\n' + '\n'.join(self.dispatch_protos()) + '\n' + '\n'.join(body) + '\n' + disp + '\n' + init
+
+    def entry_ladder(self, f, txt):
+        """opts['ladder_funcs'] = [(regex on the C name, [argument indices]), ...]: the function gets an entry ladder that
+        concretises the named pointer arguments against the registered vp_obj objects (+ opts['ladder_offsets']): inside each
+        rung the argument is a constant, so the body's memory accesses through it have constant addresses.  Semantics are
+        unchanged (the last rung passes the argument through)."""
+        rules = self.opts.get('ladder_funcs') or []
+        cn = self.fname(f.name)
+        idxs = None
+        for (rx, ix) in rules:
+            if re.search(rx, cn):
+                idxs = ix
+                break
+        if not idxs:
+            return txt
+        offs = self.opts.get('ladder_offsets') or [0]
+        targets = sorted(set(b + o for b in self.ladder_targets() for o in offs))
+        proto = self.proto(f)
+        nargs = len(f.params)
+        ret = self.ctype(f.ret)
+        names = [cn] + ['%s__l%d' % (cn, k) for k in range(1, len(idxs))] + [cn + '__impl']
+        out = [txt.replace(proto + ' {', 'static ' + proto.replace(cn + '(', names[-1] + '(', 1) + ' {', 1)]
+        for k in range(len(idxs) - 1, -1, -1):
+            j = idxs[k]
+            me, nxt = names[k], names[k + 1]
+            pr = proto.replace(cn + '(', me + '(', 1)
+            lines = [('static ' if k else '') + pr + ' {']
+            for t in targets:
+                args = ', '.join(('%dUL' % t) if a == j else 'a%d' % a for a in range(nargs))
+                call = '%s(%s)' % (nxt, args)
+                if ret == 'void':
+                    lines.append('  if (a%d == %dUL) { %s; return; }' % (j, t, call))
+                else:
+                    lines.append('  if (a%d == %dUL) { return %s; }' % (j, t, call))
+            args = ', '.join('a%d' % a for a in range(nargs))
+            if self.opts.get('ladder_strict'):
+                # a pointer outside the ladder is reported, and the body is NOT run with it: even under an infeasible guard a store
+                # through an unresolved pointer would turn every memory cell into a symbolic term
+                lines.append('  VP_FAIL("VP-BOUND: pointer argument outside the registered ladder"); VP_ASSUME(0);')
+                if ret != 'void':
+                    lines.append('  { %s vp_zero = {0}; return vp_zero; }' % ret if ret.startswith('struct') else '  return 0;')
+            else:
+                lines.append('  %s%s(%s);' % ('' if ret == 'void' else 'return ', nxt, args))
+            lines.append('}')
+            out.append('\n'.join(lines))
+        self.n_entry_ladders = getattr(self, 'n_entry_ladders', 0) + 1
+        return '\n'.join(out)
 
     def is_intrinsic(self, name):
         return name.startswith('@llvm.')
@@ -1170,6 +1228,9 @@ class Emitter:
                         if not m:
                             continue
                         vt = '@_ZTVN' + m.group(2) + 'E'
+                        msfx = re.search(r'_vpc\d$', m.group(1))   # module instantiated several times (core.suffix_all_defined)
+                        if msfx:
+                            vt += msfx.group(0)
                         if vt not in groups:
                             continue
                         try:
@@ -1378,6 +1439,10 @@ class FuncEmitter:
         self.defs = {}  # local name -> parsed instruction (for pattern matching)
         self.has_alloca = False
         self.tmpc = 0
+        rx = em.opts.get('ladder_mem_funcs')
+        self.memlad = bool(rx and re.search(rx, em.fname(f.name)))
+        if self.memlad:
+            em.memlad_used = True
 
     def lname(self, name):
         return 'r_' + cid(name)
@@ -2129,7 +2194,7 @@ class FuncEmitter:
         ct = self.em.ctype(ty)
         if t.k in ('int', 'ptr') and sz <= 8:
             if order is None:
-                return '(%s)vp_ld(%s, %d)' % (ct, p, sz)
+                return '(%s)%s(%s, %d)' % (ct, 'vp_ld_lad' if self.memlad else 'vp_ld', p, sz)
             return '(%s)vp_atomic_load(%s, %d, %d)' % (ct, p, sz, ORDER[order])
         if t.k == 'int' and sz == 16 and order is None:
             return 'vp_mk128(vp_ld(%s, 8), vp_ld((%s) + 8, 8))' % (p, p)
@@ -2157,7 +2222,7 @@ class FuncEmitter:
         elif t.k not in ('int', 'ptr') or sz > 8:
             raise Unsupported('store of ' + repr(t))
         if order is None:
-            return 'vp_st(%s, %d, (uint64_t)(%s));' % (p, sz, v)
+            return '%s(%s, %d, (uint64_t)(%s));' % ('vp_st_lad' if self.memlad else 'vp_st', p, sz, v)
         return 'vp_atomic_store(%s, %d, (uint64_t)(%s), %d);' % (p, sz, v, ORDER[order])
 
     # ---- calls
